@@ -65,12 +65,28 @@ def chains():
                     yield ('seq', (a(b(c(leaf))), ('tok', 'b')))
 
 
+def list_first_pairs():
+    """a sequence whose first element has a list value, followed by an optional / choice / closure whose taken branch has one or
+    two elements (how the values of neighbours are merged into the rule's value)"""
+    A, B, K = ('tok', 'a'), ('tok', 'b'), ('tok', ',')
+    firsts = [('star', A), ('plus', A), ('join', K, A, False, False), ('join', K, A, True, True), ('star', ('seq', (A, K))), ('call', 'r1'), ('grp', ('star', A)), ('opt', ('star', A))]
+    seconds = [('opt', ('seq', (B, K))), ('alt', (('seq', (B, K)), K)), ('opt', B), ('seq', (B, K)), ('star', ('seq', (B, K))), ('star', B), ('grp', ('seq', (B, K))), ('opt', ('alt', (('seq', (B, B)), K)))]
+    for f in firsts:
+        for s2 in seconds:
+            rules = [('start', ('seq', (f, s2)))]
+            if f == ('call', 'r1'):
+                rules.append(('r1', ('star', A)))
+            yield rules
+            yield [('start', ('named', 'n', ('grp', ('seq', (f, s2)))))] + rules[1:]
+
+
 def grammars(maxsize):
     for t in all_trees(maxsize):
         yield [('start', t)]
     if maxsize == 3:
         for t in chains():
             yield [('start', t)]
+        yield from list_first_pairs()
     # reached through a rule call, as first and as second element of the caller
     for t in all_trees(max(1, maxsize - 1)):
         yield [('start', ('seq', (('call', 'r1'), ('tok', ',')))), ('r1', t)]
